@@ -381,14 +381,25 @@ def run(rep, tier, seed, replay):
                     rep.distinct.add(c.req())
     # ---- a negation (any of exhaustive and other patterns) followed by a pure observer: nothing beneath a directory
     # that an always-exhaustive member matches is shown downstream, and only such entries are missing
-    if replay is None or replay["input"].get("stack", "").endswith(";f:"):
-        nobs = walklib.gen_cases(seed + 2, 260 if tier == "quick" else 3000, stack=not_observer_stack, bounds="none", mode="p", link="f")
-        nobs = [c for c in nobs if c.labels["base"] in ("root", "subdir")]
+    for upstream in (False, True):
+      ni = 1 if upstream else 0
+      if replay is None or (replay["input"].get("stack", "").endswith(";f:") and not upstream) or (replay["input"].get("stack", "").startswith("f:;n") and upstream):
+        if not upstream:
+            nobs = walklib.gen_cases(seed + 2, 260 if tier == "quick" else 3000, stack=not_observer_stack, bounds="none", mode="p", link="f")
+            nobs = [c for c in nobs if c.labels["base"] in ("root", "subdir")]
+        else:
+            # the observer FIRST and the negation LAST, over a glob walk (which hands the directories its pattern does not match
+            # down as residue): what the negation discards as a tree is not read, so the observer never sees anything beneath it
+            def rev(r, v, d):
+                st, sh, k = not_observer_stack(r, v, d)
+                return ";".join(reversed(st.split(";"))), sh + "-rev", k
+            nobs = walklib.gen_cases(seed + 23, 320 if tier == "quick" else 3000, stack=rev, bounds="none", mode="g", link="f")
+            nobs = [c for c in nobs if c.labels["base"] in ("root", "subdir") and not c.expr.startswith(("/", "@ROOT", ".", "(?"))]
         if replay is not None:
             nobs = [walklib.case_from(replay["input"])]
         walklib.run_cases(nobs)
         rep.evaluations += len(nobs)
-        walklib.correspondence_step(rep, nobs, "negation then observer")
+        walklib.correspondence_step(rep, nobs, "observer then negation (last) over glob walks" if upstream else "negation then observer")
         h = common.harness()
         def top_alternatives(text):
             """the alternatives of an expression that is ONE top-level alternation, else the expression itself"""
@@ -424,7 +435,7 @@ def run(rep, tier, seed, replay):
         # a negation is split into its top-level alternatives (into_alternatives): each is judged on its own
         expand = {}
         for c in nobs:
-            for x in c.stack.split(";")[0].split(":", 1)[1].split("+"):
+            for x in c.stack.split(";")[ni].split(":", 1)[1].split("+"):
                 expand[x] = [hx(a) for a in top_alternatives(unhx(x))]
         allp = sorted({a for v in expand.values() for a in v})
         exh = {}
@@ -439,7 +450,7 @@ def run(rep, tier, seed, replay):
             root = unhx(c.f["root"])
             sub = base[len(root):].strip("/")
             dirs_ = [(pth, k) for pth, k, _d in walklib.rec_paths(c.f.get("rec", "-"), root) if k == "d" and (sub == "" or pth.startswith(root + "/" + sub + "/"))]
-            always = [a for x in c.stack.split(";")[0].split(":", 1)[1].split("+") for a in expand[x] if exh.get(a) == "always"]
+            always = [a for x in c.stack.split(";")[ni].split(":", 1)[1].split("+") for a in expand[x] if exh.get(a) == "always"]
             for pth, _k in dirs_:
                 rel = pth[len(base) + 1:]
                 for x in always:
@@ -459,6 +470,10 @@ def run(rep, tier, seed, replay):
             logs = c.f.get("logs", "-")
             fed = [unhx(x.split(":")[0]).rstrip("/") for x in walklib.items(logs.split("|")[0])] if logs != "-" else []
             gone = discarded.get(ci, set())
+            if upstream and (not fed or fed[0].rstrip("/") != base):
+                # a glob with an invariant prefix starts below the base: the directories of the prefix are never fed to anything
+                rep.stats["not-observer (upstream): skipped, the walk starts below the base"] += 1
+                continue
             beneath = lambda pth: any(pth.startswith(g + "/") for g in gone)
             links = [pth for pth, k, _d in walklib.rec_paths(c.f.get("rec", "-"), root) if k.startswith("l")]
             through_link = lambda pth: any(pth.startswith(l + "/") for l in links)
@@ -468,8 +483,8 @@ def run(rep, tier, seed, replay):
             if gone:
                 rep.distinct.add(c.req())
             if wrong:
-                rep.violation("oracle", "the observer after the negation is fed %r, which lies beneath a directory that an always-exhaustive pattern of the negation matches" % wrong[0], c.describe(), impl=c.impl[:500])
-            elif lost:
+                rep.violation("oracle", ("the observer BEFORE the negation (which is the last combinator, over a glob walk) is fed %r, which lies beneath a directory that an always-exhaustive pattern of the negation matches: it was read although the tree is discarded" if upstream else "the observer after the negation is fed %r, which lies beneath a directory that an always-exhaustive pattern of the negation matches") % wrong[0], c.describe(), impl=c.impl[:500])
+            elif lost and not upstream:
                 rep.violation("oracle", "the observer after the negation is never fed %r although no directory above it matches an always-exhaustive pattern of the negation" % lost[0], c.describe(), impl=c.impl[:500])
             else:
                 rep.stats["not-observer: fed exactly the entries not beneath a directory matched by an exhaustive pattern"] += 1
